@@ -30,6 +30,8 @@ pub enum Pattern {
     RequestResponse,
     /// both directions stream at once
     Simultaneous,
+    /// like RequestResponse, but the target stays silent for this many milliseconds before it answers
+    LateAnswer(u64),
 }
 
 #[derive(Clone, Copy, Debug, PartialEq, Eq, Hash)]
@@ -372,7 +374,7 @@ async fn target_conn(mut s: TcpStream, _peer: SocketAddr, reg: Arc<Registry>, li
             pump_in(&mut r, &mut ver, &reg, &flow.target, None).await;
         };
         let writer = async {
-            if spec.pattern == Pattern::RequestResponse {
+            if matches!(spec.pattern, Pattern::RequestResponse | Pattern::LateAnswer(_)) {
                 // wait for the whole request (or for the peer to give up)
                 let t0 = Instant::now();
                 loop {
@@ -385,6 +387,9 @@ async fn target_conn(mut s: TcpStream, _peer: SocketAddr, reg: Arc<Registry>, li
                     }
                     tokio::time::sleep(Duration::from_millis(2)).await;
                 }
+            }
+            if let Pattern::LateAnswer(ms) = spec.pattern {
+                tokio::time::sleep(Duration::from_millis(ms)).await;
             }
             if let Err(e) = pump_out(&mut w, nonce, id, DIR_S2C, spec.s2c, spec.write_s, spec.pause_ms, stop_at, &flow.target).await {
                 flow.target.lock().unwrap().error.get_or_insert(e);
